@@ -184,3 +184,63 @@ pub fn clean_gate_upgraded() {
 fn clean_gate_write() {
     clean_gate_wait(2, &|| true);
 }
+
+// ---------------------------------------------------------------------------------------
+// Reclamation bookkeeping (allocator.rs trackers): call trace and snapshot.
+// `trk_event` is called on entry of every tracker function (and where `flush_check` sends a
+// deletion request, kind "req").  Calls made from inside another tracker function are recorded
+// with their nesting depth > 0.  These are NOT counted I/O events: no numbering, no crash or
+// fault point; they are recorded into the seam trace only while tracing is on.
+
+thread_local! { static TRK_DEPTH: std::cell::Cell<u32> = const { std::cell::Cell::new(0) }; }
+
+pub struct TrkGuard(());
+impl Drop for TrkGuard {
+    fn drop(&mut self) {
+        TRK_DEPTH.with(|d| d.set(d.get().saturating_sub(1)));
+    }
+}
+
+/// Record `T <depth> <kind> <block id> <data dir/namespace dir/file>`; keep the returned guard alive for the
+/// duration of the tracker function.
+#[must_use]
+pub fn trk_event(kind: &'static str, id: u64, file: &str) -> TrkGuard {
+    let depth = TRK_DEPTH.with(|d| {
+        let v = d.get();
+        d.set(v + 1);
+        v
+    });
+    if TRACING.load(Ordering::SeqCst) {
+        TRACE
+            .lock()
+            .unwrap_or_else(|e| e.into_inner())
+            .push(format!("T {} {} {} {}", depth, kind, id, short_path(file)));
+    }
+    TrkGuard(())
+}
+
+/// last three path components (`<data dir>/<namespace dir>/<file>`), "-" for the empty path
+fn short_path(p: &str) -> String {
+    if p.is_empty() {
+        return "-".to_string();
+    }
+    let parts: Vec<&str> = p.rsplit('/').filter(|c| !c.is_empty()).take(3).collect();
+    let mut v = parts.clone();
+    v.reverse();
+    v.join("/")
+}
+
+/// The recorded lines so far, without stopping the recording.
+pub fn drain_trace() -> Vec<String> {
+    std::mem::take(&mut *TRACE.lock().unwrap_or_else(|e| e.into_inner()))
+}
+
+/// Read-only snapshot of the process-global trackers: files as
+/// `(dir/file, locked, checkpointed, total, fully_allocated)`, blocks as `(id, dir/file, flag)`.
+pub fn trk_snapshot() -> (Vec<(String, u16, u16, u16, bool)>, Vec<(usize, String, bool)>) {
+    let (f, b) = super::runtime::verif_trk_snapshot();
+    (
+        f.into_iter().map(|(p, l, c, t, a)| (short_path(&p), l, c, t, a)).collect(),
+        b.into_iter().map(|(i, p, c)| (i, short_path(&p), c)).collect(),
+    )
+}
